@@ -63,7 +63,7 @@ pub fn run() -> i32 {
     let mut r = Report::new("C09");
     r.viol_cap = 20000;
     let thorough = r.thorough();
-    r.rule = "(i) every feature bundle the word parser accepts for base phone + <= k diacritics (k = 1 quick, 2 thorough) plus every bundle obtained from those with <= k-1... (quick: from the bases) by one feature or place-node change; (ii) every ordered pair of base phones (quick: a 70-phone subset incl. every multi-character base) inside one syllable and across a boundary; (iii) every word of <= n segments over {p, ã, t͡s, ŋʘ} x length 1..3 x stress x tone {0,5,51,1234} in every syllabification; (iv) every state of the C08 BFS. Oracle: if render(w) has no �, parse(render(w)) == w structurally and run([], [render(w)]) == [render(w)]. Non-trivial = renderable and distinct rendering.".into();
+    r.rule = "(i) every feature bundle the word parser accepts for base phone + <= k diacritics (k = 1 quick, 2 thorough) plus every bundle obtained from those with <= k-1... (quick: from the bases) by one feature or place-node change; (ii) every ordered pair of base phones (quick: a 70-phone subset incl. every multi-character base) inside one syllable and across a boundary; (ii-b) every base phone next to its own twin carrying one diacritic, in both orders and after a long plain run; (iii) every word of <= n segments over {p, ã, t͡s, ŋʘ} x length 1..3 x stress x tone {0,5,51,1234} in every syllabification; (iv) every state of the C08 BFS. Oracle: if render(w) has no �, parse(render(w)) == w structurally and run([], [render(w)]) == [render(w)]. Non-trivial = renderable and distinct rendering.".into();
     // (i)
     let k = if thorough { 2 } else { 1 };
     let parsed = parsed_universe(k);
@@ -92,6 +92,29 @@ pub fn run() -> i32 {
         check(&vec![CSyl { segs: vec![x.1], stress: 0, tone: 0 }, CSyl { segs: vec![y.1], stress: 0, tone: 0 }], format!("pair|{}.{}", x.0, y.0), a);
     }, |a| t2.merge(a));
     r.boxes.push(json!({"box": "(ii) ordered pairs of base phones, tautosyllabic and across a boundary", "phones": subset.len(), "words": t2.evals, "round_trip_ok": t2.ok, "unrenderable": t2.unrenderable, "failures": t2.viols.len()}));
+    // (ii-b) a phone next to its own twin carrying one diacritic, in both orders and after a long plain run (`aã`, `ãa`, `aaã`): the reader
+    // has to attach the diacritic to the last copy only and must not merge the twin into a run
+    let dias = av::diacritics();
+    let mut twins: Vec<(String, SegBits, SegBits)> = vec![];
+    for (g, sg) in cards.iter().step_by(if thorough { 1 } else { 3 }) {
+        let b = bits(sg);
+        for d in &dias {
+            let t = format!("{}{}", g, d);
+            if let Out::Ok(Ok(w)) = guarded(200_000, || av::parse_word(&t, None)) {
+                if w.syllables.len() == 1 && w.syllables[0].segments.len() == 1 { let v = bits(&w.syllables[0].segments[0]); if v != b { twins.push((t, b, v)); } }
+            }
+        }
+    }
+    let mut t2b = Acc::default();
+    par_fold(twins.len(), 256, Acc::default, |i, a| {
+        let (t, b, v) = &twins[i];
+        let sy = |segs: Vec<SegBits>| vec![CSyl { segs, stress: 0, tone: 0 }];
+        check(&sy(vec![*b, *v]), format!("twin|{}|plain-first", t), a);
+        check(&sy(vec![*v, *b]), format!("twin|{}|marked-first", t), a);
+        check(&sy(vec![*b, *b, *v]), format!("twin|{}|after-long", t), a);
+    }, |a| t2b.merge(a));
+    r.boxes.push(json!({"box": "(ii-b) phone + its own twin with one diacritic (both orders, after a long run)", "twins": twins.len(), "words": t2b.evals, "round_trip_ok": t2b.ok, "unrenderable": t2b.unrenderable, "failures": t2b.viols.len()}));
+    r.guard(t2b.ok > 1000, "(ii-b) more than 1000 twin words round-trip");
     // (iii)
     // one plain stop, one vowel carrying a diacritic (length marks after diacritics), an affricate with a tie, a click digraph
     let inv: Vec<SegBits> = ["p", "ã", "t͡s", "ŋʘ"].iter().map(|t| seg(t)).collect();
@@ -133,12 +156,12 @@ pub fn run() -> i32 {
     par_fold(g.states.len(), 256, Acc::default, |i, a| check(&g.states[i], format!("bfs|{}", show_cw(&g.states[i])), a), |a| t4.merge(a));
     r.boxes.push(json!({"box": "(iv) states reached by the C08 BFS", "states": g.states.len(), "round_trip_ok": t4.ok, "unrenderable": t4.unrenderable, "failures": t4.viols.len()}));
     r.guard(t4.ok > 1000, "(iv) more than 1000 BFS states round-trip");
-    r.evaluations = t1.evals + t2.evals + t3.evals + t4.evals; r.transitions = r.evaluations * 2; r.validated = t1.ok + t2.ok + t3.ok + t4.ok;
+    r.evaluations = t1.evals + t2.evals + t2b.evals + t3.evals + t4.evals; r.transitions = r.evaluations * 2; r.validated = t1.ok + t2.ok + t2b.ok + t3.ok + t4.ok;
     r.outcome("round_trip_ok", r.validated); r.outcome("unrenderable (contains �; outside the property)", t1.unrenderable + t2.unrenderable + t3.unrenderable + t4.unrenderable);
     let mut outs = t1.outs; outs.extend(t2.outs); outs.extend(t3.outs); outs.extend(t4.outs);
     r.nontrivial = outs.len() as u64; r.states = outs;
     r.sample(json!({"word": show_cw(&shapes[shapes.len() / 2])})); r.sample(json!({"segment": show_cw(&one(uni[uni.len() / 3]))}));
-    for v in t1.viols.into_iter().chain(t2.viols).chain(t3.viols).chain(t4.viols) { r.viol(v); }
+    for v in t1.viols.into_iter().chain(t2.viols).chain(t2b.viols).chain(t3.viols).chain(t4.viols) { r.viol(v); }
     // keys are cell-exact already; the class summary groups by prefix
     r.finish()
 }
